@@ -14,6 +14,7 @@ import IslaVerif.Driver.C02
 import IslaVerif.Driver.TreeOps
 import IslaVerif.Driver.Alpha
 import IslaVerif.Driver.Targets
+import IslaVerif.Driver.Formats
 namespace IslaVerif.Driver
 open IslaVerif
 
@@ -34,6 +35,7 @@ def dispatch : Sexp → Sexp
   | .list (.atom "tree" :: rest) => TreeOpsD.handle rest
   | .list (.atom "alpha" :: rest) => AlphaD.handle rest
   | .list (.atom "tgt" :: rest) => TargetsD.handle rest
+  | .list (.atom "fmt" :: rest) => FormatsD.handle rest
   | _ => .atom "bad-request"
 
 end IslaVerif.Driver
